@@ -325,7 +325,11 @@ def processK (b : KBlock) : IO (Nat × Nat × Nat) := do   -- (experiments, diff
             -- (2) what the next launch selects
             let sel : Option Nat := match ro.ret with | .num k => if k = 0 then none else some k | _ => none
             let key := cfg?.bind (·.key)
-            match firstFail (crashChecks env key preV (Judge.viewOfObs xo) offers settledPre inProg (Judge.viewOfObs ro) sel) with
+            -- `up=1`: the launch after the death is one of another release (`crash_then_other_release`): it selects nothing
+            let checks : Checks :=
+              if (hdf.lookup "up") == some "1" then upgradeChecks sel
+              else crashChecks env key preV (Judge.viewOfObs xo) offers settledPre inProg (Judge.viewOfObs ro) sel
+            match firstFail checks with
             | some why =>
               IO.println s!"J C04 {b.id} step=0 side=impl {hd} {why}"
               jf := jf + 1
